@@ -435,7 +435,7 @@ class C13(Check):
         out = []
         for (c, o, m, fm, fi, rest) in res:
             # rest[0] = 0: a triple on which the MODEL's two groupings disagree (associativity is checked, not proved)
-            if rest and rest[0] == 0:
+            if c["kind"] == "assoc" and len(rest) >= 2 and rest[1] == 0:
                 self._not_assoc_in_model.add(id(c))
                 fm = fm or ["merge_assoc(model)"]
             out.append((c, o, norm_obs(c["kind"], m), fm, fi, rest))
